@@ -309,3 +309,33 @@ it2literal = Contract(
     canaries=["len(it) == 1"],
 )
 CONTRACTS.append(it2literal)
+
+# ------------------------------------------------------------------------------------------- infer_type_and_default (C04: defaults of argparse options)
+infer_type_and_default = Contract(
+    "doctrans.ast_utils:infer_type_and_default",
+    properties=["C04", "C06"],
+    note="scalar defaults (int / bool / plain str) and None; code-quoted strings, AST nodes, lists and dicts take other branches (bounded rt_argparse)",
+    cases=[
+        Case("int", {"action": None, "default": "int", "typ": "str", "required": "bool"}),
+        Case("bool", {"action": None, "default": "bool", "typ": "str", "required": "bool"}),
+        Case("str", {"action": None, "default": "str", "typ": "str", "required": "bool"},
+             assume=["not (len(default) > 6 and default[:3] == '```' and default[-3:] == '```')"]),
+        Case("None,Optional", {"action": None, "default": None, "typ": ("lit", "Optional[int]"), "required": "bool"}),
+        Case("None,plain", {"action": None, "default": None, "typ": ("lit", "int"), "required": "bool"}),
+        Case("None,Any", {"action": None, "default": None, "typ": ("lit", "Any"), "required": "bool"}),
+    ],
+    ensures=[
+        Clause("ITD-frame", "result[0] is None and result[2] == required", note="action and the required flag are untouched by a scalar / None default"),
+        Clause("ITD-value", "result[1] == default and typeis(result[1], 'int')", when=["int"], note="C04: the default value and its Python type are kept"),
+        Clause("ITD-value-bool", "result[1] == default and typeis(result[1], 'bool')", when=["bool"]),
+        Clause("ITD-value-str", "result[1] == default", when=["str"]),
+        Clause("ITD-typ-int", "result[3] == 'int'", when=["int"], note="the option's type is the default's type"),
+        Clause("ITD-typ-bool", "result[3] == 'bool'", when=["bool"]),
+        Clause("ITD-typ-str", "result[3] == 'str'", when=["str"]),
+        Clause("ITD-none", "result[1] is None", when=["None,Optional", "None,plain", "None,Any"]),
+        Clause("ITD-none-typ", "result[3] == typ", when=["None,Optional", "None,Any"], note="an Optional / Any type survives a None default"),
+        Clause("ITD-none-plain", "result[3] is None", when=["None,plain"], note="(a plain scalar type is dropped with a None default: finding A-none's mechanism)"),
+    ],
+    canaries=["result[3] == 'int'", "result[1] is None"],
+)
+CONTRACTS.append(infer_type_and_default)
